@@ -194,3 +194,42 @@ Definition agree (I : input dyadic) (expected : option (zmat * zmat * zmat)) : b
       && coo_eqb (canon (bound_neu o)) (map of_zt n) && shape_eqb (bound_neu_shape o) (of_zshape ns)
   | _, _ => false
   end.
+
+(* ------------------------------------------------------------------------------ *)
+(* Upwind.assemble_matrix_rhs (legacy):  matrix = div @ diag(flux) @ upwind,
+   rhs = div @ (bound_neu + bound_dir @ diag(flux)) @ bc_values; ValueError when the number
+   of components is not 1 (shape mismatch).  Executed for fluxes with exponent 0 (integers). *)
+Definition zentry (M : coo) (r c : nat) : Z :=
+  fold_right (fun (t : nat * nat * Z) acc =>
+     let '(r', c', v) := t in if (r' =? r) && (c' =? c) then (v + acc)%Z else acc) 0%Z M.
+Definition zrow (M : coo) (x : nat -> Z) (r : nat) : Z :=
+  fold_right (fun (t : nat * nat * Z) acc =>
+     let '(r', c', v) := t in if r' =? r then (v * x c' + acc)%Z else acc) 0%Z M.
+
+Definition assemble_matrix (I : input dyadic) (o : output) (i j : nat) : Z :=
+  fold_right (fun t acc => if tc t =? i
+                           then (ts t * fst (q I (tf t)) * zentry (upwind o) (tf t) j + acc)%Z else acc)
+             0%Z (cf I).
+Definition assemble_rhs (I : input dyadic) (o : output) (bcv : nat -> Z) (i : nat) : Z :=
+  fold_right (fun t acc => if tc t =? i
+     then (ts t * (zrow (bound_neu o) bcv (tf t)
+                   + zrow (bound_dir o) (fun f => fst (q I f) * bcv f)%Z (tf t)) + acc)%Z else acc)
+             0%Z (cf I).
+
+(* expected: None = ValueError *)
+Definition agree_assemble (I : input dyadic) (bcv : list Z) (expected : option (list zt * list Z))
+  : bool :=
+  match discretize dyadic nonnegD I with
+  | Err _ => true
+  | Ok o =>
+      if ncomp I =? 1 then
+        match expected with
+        | None => false
+        | Some (m, r) =>
+            let mm := map of_zt m in
+            forallb (fun i => forallb (fun j => (assemble_matrix I o i j =? zentry mm i j)%Z)
+                                      (seq 0 (nc I))) (seq 0 (nc I))
+            && forallb (fun i => (assemble_rhs I o (nthz bcv) i =? nthz r i)%Z) (seq 0 (nc I))
+        end
+      else match expected with None => true | Some _ => false end
+  end.
